@@ -225,7 +225,10 @@ async fn script_case(ctx: &mut Ctx, case: u64, seq: &[usize], rng: &mut Rng) {
         let _ = h.shutdown().await;
     }
     // ---- the accepting side, with every accept decision
-    for (ci, cb) in ["allow", "reject-notfound", "reject-already-syncing", "reject-internal"].iter().enumerate() {
+    // the fifth decision is the one the engine's own callback takes: it allows the first request of
+    // a connection and, while that session runs, answers any further question with "already syncing"
+    // (added after seeded change agent-C10-7, where a second Init frame asks again)
+    for (ci, cb) in ["allow", "reject-notfound", "reject-already-syncing", "reject-internal", "allow-once-then-already-syncing"].iter().enumerate() {
         let h = act::spawn(store_with(&w.uni, &entries[..3], Some(&other)));
         let _ = h.open(ns, OpenOpts::default().sync()).await;
         let _ = h.open(other.id(), OpenOpts::default()).await;
@@ -233,18 +236,30 @@ async fn script_case(ctx: &mut Ctx, case: u64, seq: &[usize], rng: &mut Rng) {
         let (local, remote) = tokio::io::duplex(1 << 16);
         let (lr, lw) = tokio::io::split(local);
         let h2 = h.clone();
+        let asked = std::sync::Arc::new(std::sync::atomic::AtomicUsize::new(0));
+        let asked2 = asked.clone();
+        let reported_declined = std::sync::Arc::new(std::sync::atomic::AtomicBool::new(false));
+        let reported_declined2 = reported_declined.clone();
         let task = tokio::spawn(async move {
             let mut state = BobState::new(peer_key(8));
             let res = state
-                .run(lw, lr, h2, move |_ns, _peer| async move {
-                    match ci {
-                        0 => AcceptOutcome::Allow,
-                        1 => AcceptOutcome::Reject(AbortReason::NotFound),
-                        2 => AcceptOutcome::Reject(AbortReason::AlreadySyncing),
-                        _ => AcceptOutcome::Reject(AbortReason::InternalServerError),
+                .run(lw, lr, h2, move |_ns, _peer| {
+                    let nth = asked2.fetch_add(1, std::sync::atomic::Ordering::SeqCst);
+                    async move {
+                        match ci {
+                            0 => AcceptOutcome::Allow,
+                            1 => AcceptOutcome::Reject(AbortReason::NotFound),
+                            2 => AcceptOutcome::Reject(AbortReason::AlreadySyncing),
+                            3 => AcceptOutcome::Reject(AbortReason::InternalServerError),
+                            _ if nth == 0 => AcceptOutcome::Allow,
+                            _ => AcceptOutcome::Reject(AbortReason::AlreadySyncing),
+                        }
                     }
                 })
                 .await;
+            if matches!(res, Err(iroh_docs::net::AcceptError::Abort { .. })) {
+                reported_declined2.store(true, std::sync::atomic::Ordering::SeqCst);
+            }
             // exactly what handle_connection does next, whatever `res` is
             let ns_seen = state.namespace();
             let outcome = state.into_outcome();
@@ -257,7 +272,7 @@ async fn script_case(ctx: &mut Ctx, case: u64, seq: &[usize], rng: &mut Rng) {
         });
         play(remote, &w, seq, rng, false).await;
         let mut unattributed: Option<String> = None;
-        let allowed_init = ci == 0 && seq.first().map(|l| LETTERS[*l].starts_with("init") && LETTERS[*l] != "init-unknown-doc").unwrap_or(false);
+        let allowed_init = (ci == 0 || ci == 4) && seq.first().map(|l| LETTERS[*l].starts_with("init") && LETTERS[*l] != "init-unknown-doc").unwrap_or(false);
         let end = finish(task, &h, ns, |(r, _, _, attributed)| match r {
             Ok(_) => End::Ok,
             Err(e) => {
@@ -281,7 +296,13 @@ async fn script_case(ctx: &mut Ctx, case: u64, seq: &[usize], rng: &mut Rng) {
         match h.get_state(ns).await {
             Err(_) => ctx.violation(case, "store-actor-dead-after-session[acceptor]", json!({"frames": names, "accept": cb, "panic": format!("{:?}", crate::take_panic())})),
             Ok(_) => {
-                if ci != 0 {
+                // a request that is reported as declined (whatever the callback was) and a request
+                // that the callback declined: nothing in the store has changed
+                let declined = reported_declined.load(std::sync::atomic::Ordering::SeqCst);
+                if declined {
+                    ctx.count("sessions_reported_as_declined", 1);
+                }
+                if (1..=3).contains(&ci) || declined {
                     // a declined request changes nothing in the store
                     let after = Model::from_entries(act::dump(&h, ns).await.unwrap_or_default());
                     ctx.count("declined_requests_checked", 1);
